@@ -146,7 +146,25 @@ def rule_helpers(rep, repo, mod):
         ok = p_ceil == "frac"
         why = "P(round up) = %s, must be frac(s) for an unbiased draw" % \
             p_ceil
-  rep.check(ok, "R4", unit, "biased-orientation", why, loc=loc,
+  construct = "biased-orientation"
+  if not (a is not None and a[0] == "app" and a[1] == "where"):
+    # not a selection between floor and ceil
+    rands = [t for t in nf.atoms() if t[0] == "app" and t[1] == "rand"]
+    additive = a is not None and a[0] == "app" and a[1] in (
+        "floor", "ceil", "round") and any(
+            at[0] == "app" and at[1] == "rand"
+            for at in a[3][0].atoms(deep=False))
+    if additive:
+      construct = "additive-noise-rounding"
+      why = ("stochastic_round computes %s: adding the uniform draw to the "
+             "value before rounding is exact only in real arithmetic - in "
+             "float32 the sum is rounded first, so an input that already is "
+             "a code of large magnitude moves to the neighbouring code" %
+             show(nf))
+    elif rands:
+      raise AnalysisError("unsupported-construct unrecognised stochastic "
+                          "rounding form %s" % show(nf, 200))
+  rep.check(ok, "R4", unit, construct, why, loc=loc,
             facts={"result": show(nf)})
   # precision scales in and out symmetrically
   pe = PE(repo)
